@@ -90,7 +90,7 @@ structure MFacts (evs : List Ev) (m : MState) (seen : List Uuid) : Prop where
 
 /-- one step of thread `t` on both sides -/
 theorem arel_step (I : Impl σ) (S : Sys) (hS : S.ensure = ensureClientFixed) (evs : List Ev)
-    (hhttp : ∀ e ∈ evs, e.isHttp = true) (A : Atomic σ Out) (m : MState) (seen : List Uuid)
+    (hmix : ReqMix evs) (A : Atomic σ Out) (m : MState) (seen : List Uuid)
     (h : ARel I S evs A m) (hf : MFacts evs m seen) (t : Nat) (m' : MState) (hs : MStep S evs m t m')
     (hfresh : ∀ e, evs[t]? = some e → m'.log = m.log ++ [.lin t] → FreshEv e seen) :
     ∃ A', stepAtomic I.B I.mode A t = some A' ∧ ARel I S evs A' m' := by
@@ -130,7 +130,7 @@ theorem arel_step (I : Impl σ) (S : Sys) (hS : S.ensure = ensureClientFixed) (e
   | toCreate e he ph hp hph hn =>
     obtain ⟨x, ph', hx, hp', hr⟩ := h.th t e he
     rw [hp] at hp'; cases hp'
-    obtain ⟨c, hc⟩ := isHttp_client e (hhttp e (List.mem_of_getElem? he))
+    obtain ⟨c, hc⟩ := reqMix_client hmix e (List.mem_of_getElem? he)
     have hnone := needsCreate_true e m.a c hc hn
     rcases hph with rfl | rfl
     · cases hr
@@ -154,7 +154,7 @@ theorem arel_step (I : Impl σ) (S : Sys) (hS : S.ensure = ensureClientFixed) (e
   | lin e he ph hp hph hn =>
     obtain ⟨x, ph', hx, hp', hr⟩ := h.th t e he
     rw [hp] at hp'; cases hp'
-    have hehttp := hhttp e (List.mem_of_getElem? he)
+    have hereq := reqMix_mem hmix e (List.mem_of_getElem? he)
     have hfr := hfresh e he rfl
     have hidfresh : ∀ n, e.drawn = some n → n ∉ (I.abs A.db).ids := by
       intro n hn' hmem
@@ -192,9 +192,12 @@ theorem arel_step (I : Impl σ) (S : Sys) (hS : S.ensure = ensureClientFixed) (e
       have hx' : A.threads[t]? = some (.outside ((Ev.as c v d now).req S)) := by
         rcases hph with rfl | rfl <;> cases hr <;> exact hx
       exact single c _ _ hx' (as_as S I.mode c v d now _) rfl
-    | avLib c p seg n now => simp [Ev.isHttp] at hehttp
-    | create c => simp [Ev.isHttp] at hehttp
-    | reopen => simp [Ev.isHttp] at hehttp
+    | avLib c p seg n now =>
+      have hx' : A.threads[t]? = some (.outside ((Ev.avLib c p seg n now).req S)) := by
+        rcases hph with rfl | rfl <;> cases hr <;> exact hx
+      exact single c _ _ hx' (as_avLib S I.mode c p seg n now _ (hinv.each c) (hidfresh n rfl)) rfl
+    | create c => simp [Ev.isHttp, Ev.isLib] at hereq
+    | reopen => simp [Ev.isHttp, Ev.isLib] at hereq
     | av c p seg n now =>
       -- the client exists: one transaction, the library AddVersion
       have hsome : (m.a.st c).client ≠ none := by
@@ -419,7 +422,7 @@ theorem fresh_append (l1 l2 : List Ev) (seen : List Uuid) (h : Fresh (l1 ++ l2) 
 
 /-- the lock-step run: atomic programs on the backend vs the machine, as long as drawn ids are fresh -/
 theorem arel_run (I : Impl σ) (S : Sys) (hS : S.ensure = ensureClientFixed) (evs : List Ev)
-    (hhttp : ∀ e ∈ evs, e.isHttp = true) (a0 : AS) (sch : List Nat) (A : Atomic σ Out) (m : MState) (seen : List Uuid)
+    (hmix : ReqMix evs) (a0 : AS) (sch : List Nat) (A : Atomic σ Out) (m : MState) (seen : List Uuid)
     (h : ARel I S evs A m) (hf : MFacts evs m seen) (hls : LinState S evs a0 m)
     (hfresh : Fresh (evsOf evs (newLin S evs m sch)) seen) :
     ARel I S evs (runAtomic I.B I.mode A sch) (mrun S evs m sch) := by
@@ -437,7 +440,7 @@ theorem arel_run (I : Impl σ) (S : Sys) (hS : S.ensure = ensureClientFixed) (ev
       rw [hm] at hfresh
       simp only at hfresh ⊢
       have hs := mstep_rel S evs m m' t hm
-      have hls' := linstate_step S evs hhttp a0 m t m' hls hs
+      have hls' := linstate_step S evs hmix a0 m t m' hls hs
       obtain ⟨b', _, _, hrel', _⟩ := hls'.sim
       obtain ⟨e, he⟩ := mstep_ev S evs m m' t hs
       by_cases hl : m'.log = m.log ++ [.lin t]
@@ -447,13 +450,13 @@ theorem arel_run (I : Impl σ) (S : Sys) (hS : S.ensure = ensureClientFixed) (ev
         rw [hev] at hfresh
         have hfr : ∀ e', evs[t]? = some e' → m'.log = m.log ++ [.lin t] → FreshEv e' seen := by
           intro e' he' _; rw [he] at he'; cases he'; exact hfresh.1
-        obtain ⟨A', hA, hrel⟩ := arel_step I S hS evs hhttp A m seen h hf t m' hs hfr
+        obtain ⟨A', hA, hrel⟩ := arel_step I S hS evs hmix A m seen h hf t m' hs hfr
         rw [hA]
         exact ih A' m' _ hrel ((mfacts_step S evs m seen hf t m' hs b' hrel' hfr).2 hl e he) hls' hfresh.2
       · simp only [hl, ↓reduceIte, List.nil_append] at hfresh
         have hfr : ∀ e', evs[t]? = some e' → m'.log = m.log ++ [.lin t] → FreshEv e' seen := by
           intro e' _ h'; exact absurd h' hl
-        obtain ⟨A', hA, hrel⟩ := arel_step I S hS evs hhttp A m seen h hf t m' hs hfr
+        obtain ⟨A', hA, hrel⟩ := arel_step I S hS evs hmix A m seen h hf t m' hs hfr
         rw [hA]
         exact ih A' m' _ hrel ((mfacts_step S evs m seen hf t m' hs b' hrel' hfr).1 hl) hls' hfresh
 
@@ -528,17 +531,17 @@ theorem evsOf_snoc (evs : List Ev) (l : List Nat) (t : Nat) (e : Ev) (he : evs[t
   simp [evsOf, List.filterMap_append, he]
 
 theorem runinv_step (I : Impl σ) (S : Sys) (hS : S.ensure = ensureClientFixed) (evs : List Ev)
-    (hhttp : ∀ e ∈ evs, e.isHttp = true) (a0 : AS) (seen0 : List Uuid) (A : Atomic σ Out) (m : MState)
+    (hmix : ReqMix evs) (a0 : AS) (seen0 : List Uuid) (A : Atomic σ Out) (m : MState)
     (h : RunInv I S evs a0 seen0 A m) (t : Nat) (m' : MState) (hm : mstep S evs m t = some m')
     (hfr : m'.log = m.log ++ [.lin t] → ∀ e, evs[t]? = some e → FreshEv e (seenAt seen0 evs m)) :
     ∃ A', stepAtomic I.B I.mode A t = some A' ∧ RunInv I S evs a0 seen0 A' m' := by
   have hs := mstep_rel S evs m m' t hm
-  have hls' := linstate_step S evs hhttp a0 m t m' h.lin hs
+  have hls' := linstate_step S evs hmix a0 m t m' h.lin hs
   obtain ⟨b', _, _, hrel', _⟩ := hls'.sim
   obtain ⟨e, he⟩ := mstep_ev S evs m m' t hs
   have hfr' : ∀ e', evs[t]? = some e' → m'.log = m.log ++ [.lin t] → FreshEv e' (seenAt seen0 evs m) :=
     fun e' he' hl => hfr hl e' he'
-  obtain ⟨A', hA, hrel⟩ := arel_step I S hS evs hhttp A m _ h.arel h.facts t m' hs hfr'
+  obtain ⟨A', hA, hrel⟩ := arel_step I S hS evs hmix A m _ h.arel h.facts t m' hs hfr'
   have hmf := mfacts_step S evs m _ h.facts t m' hs b' hrel' hfr'
   refine ⟨A', hA, hrel, ?_, hls', ?_⟩
   · rcases mstep_linOrder S evs m m' t hs with ⟨hl, hlo⟩ | ⟨hl, hlo⟩
@@ -560,7 +563,7 @@ theorem runAtomic_cons_some (B : Backend σ) (mode : TxnMode) {ρ : Type} (a a' 
 /-- the lock-step run, with the freshness of each drawn id supplied at the step that uses it (the supplier may use
     everything established up to that step) -/
 theorem runinv_run (I : Impl σ) (S : Sys) (hS : S.ensure = ensureClientFixed) (evs : List Ev)
-    (hhttp : ∀ e ∈ evs, e.isHttp = true) (a0 : AS) (seen0 : List Uuid) (sch : List Nat) (A : Atomic σ Out) (m : MState)
+    (hmix : ReqMix evs) (a0 : AS) (seen0 : List Uuid) (sch : List Nat) (A : Atomic σ Out) (m : MState)
     (h : RunInv I S evs a0 seen0 A m)
     (hcb : ∀ s1 t s2, sch = s1 ++ t :: s2 →
       RunInv I S evs a0 seen0 (runAtomic I.B I.mode A s1) (mrun S evs m s1) →
@@ -579,7 +582,7 @@ theorem runinv_run (I : Impl σ) (S : Sys) (hS : S.ensure = ensureClientFixed) (
       rw [mrun_cons_none _ _ _ _ _ hm, runAtomic_cons_none _ _ _ _ _ (atomic_none I S evs A m h.arel t hm)] at this
       exact this hri m' e hm' hl he
     | some m' =>
-      obtain ⟨A', hA, hri'⟩ := runinv_step I S hS evs hhttp a0 seen0 A m h t m' hm
+      obtain ⟨A', hA, hri'⟩ := runinv_step I S hS evs hmix a0 seen0 A m h t m' hm
         (fun hl e he => hcb [] t ts rfl h m' e hm hl he)
       rw [mrun_cons_some _ _ _ _ _ _ hm, runAtomic_cons_some _ _ _ _ _ _ hA]
       refine ih A' m' hri' ?_
@@ -590,7 +593,7 @@ theorem runinv_run (I : Impl σ) (S : Sys) (hS : S.ensure = ensureClientFixed) (
 
 /-- … and at every prefix of the schedule -/
 theorem runinv_prefix (I : Impl σ) (S : Sys) (hS : S.ensure = ensureClientFixed) (evs : List Ev)
-    (hhttp : ∀ e ∈ evs, e.isHttp = true) (a0 : AS) (seen0 : List Uuid) (sch : List Nat) (A : Atomic σ Out) (m : MState)
+    (hmix : ReqMix evs) (a0 : AS) (seen0 : List Uuid) (sch : List Nat) (A : Atomic σ Out) (m : MState)
     (h : RunInv I S evs a0 seen0 A m)
     (hcb : ∀ s1 t s2, sch = s1 ++ t :: s2 →
       RunInv I S evs a0 seen0 (runAtomic I.B I.mode A s1) (mrun S evs m s1) →
@@ -598,7 +601,7 @@ theorem runinv_prefix (I : Impl σ) (S : Sys) (hS : S.ensure = ensureClientFixed
         FreshEv e (seenAt seen0 evs (mrun S evs m s1)))
     (p q : List Nat) (hpq : sch = p ++ q) :
     RunInv I S evs a0 seen0 (runAtomic I.B I.mode A p) (mrun S evs m p) := by
-  refine runinv_run I S hS evs hhttp a0 seen0 p A m h ?_
+  refine runinv_run I S hS evs hmix a0 seen0 p A m h ?_
   intro s1 t s2 hs
   exact hcb s1 t (s2 ++ q) (by rw [hpq, hs]; simp)
 
